@@ -6,6 +6,9 @@ from .state import State, Heap
 from .speceval import Ev, SpecError
 
 
+_rec_ctr = [0]
+
+
 class FormalHeap(Heap):
     """heap whose regions are the formal array parameters of a recursive spec function"""
 
@@ -64,9 +67,18 @@ class RecSpecs:
         hargs = []
         for key in keys:
             hargs.append(ev.st.heap.get(key, sorts[key], ev.st.alloc0))
-        return Val(rt, {(): f(*(args + hargs))})
+        term = f(*(args + hargs))
+        if not ev.quant and not getattr(ev, 'nounfold', False):
+            sub = Ev(self.cx, ev.st, dict(env), sf.pkg, ev.old, sf.imports, None, False)
+            sub.nounfold = True
+            body = sub.ev(sf.body)
+            ev.st.assume(term == body.term)
+        return Val(rt, {(): term})
 
     def define(self, ev, sf, env, rt):
+        """heap footprint and uninterpreted symbol of a recursive spec function (fuel-1 scheme:
+        the function is uninterpreted; each application outside a quantifier gets one instance of
+        its defining equation)"""
         k = (sf.pkg, sf.name)
         if k in self.defs:
             return self.defs[k]
@@ -75,7 +87,6 @@ class RecSpecs:
         if len(rl) != 1:
             raise SpecError('recursive spec %s must return a scalar' % sf.name)
         rsort = sort_of(rl[0][1])
-        # formals
         fenv = {}
         formals = []
         for (pn, pt) in sf.params:
@@ -92,35 +103,23 @@ class RecSpecs:
                     formals.append(c)
                 fenv[pn] = Val(a.t, lv)
         cx = self.cx
-
-        def evaluate(recfn, heap):
-            hs = State.__new__(State)
-            hs.__dict__.update(ev.st.__dict__)
-            hs.heap = heap
-            hs.assumptions = []
-            sub = Ev(cx, hs, dict(fenv), sf.pkg, None, sf.imports, None, True)
-            sub.depth = 0
-            self.defs[k] = recfn
-            try:
-                return sub.ev(sf.body)
-            finally:
-                del self.defs[k]
-        # pass 1: discover heap regions with a placeholder for recursive calls
         heap1 = FormalHeap(types, 'R_' + sf.name)
         ph = ops.uf('placeholder_' + sf.name, *([x.sort() for x in formals] + [rsort]))
-        evaluate((lambda *a: ph(*a[:len(formals)]), heap1.keys, heap1.sorts, True), heap1)
+        hs = State.__new__(State)
+        hs.__dict__.update(ev.st.__dict__)
+        hs.heap = heap1
+        hs.assumptions = []
+        hs.sink = None
+        sub = Ev(cx, hs, dict(fenv), sf.pkg, None, sf.imports, None, True)
+        self.defs[k] = (lambda *a: ph(*a[:len(formals)]), heap1.keys, heap1.sorts, True)
+        try:
+            sub.ev(sf.body)
+        finally:
+            del self.defs[k]
         keys = list(heap1.keys)
-        hformals = [heap1.r[key] for key in keys]
-        f = z3.RecFunction('spec_%s_%s' % (sf.pkg.rsplit('/', 1)[-1], sf.name),
-                           *([x.sort() for x in formals] + [h.sort() for h in hformals] + [rsort]))
-        heap2 = FormalHeap(types, 'R_' + sf.name)
-        for key in keys:
-            heap2.get(key, heap1.sorts[key], None)
-        body = evaluate((lambda *a: f(*(list(a[:len(formals)]) + hformals)), keys, heap1.sorts, True), heap2)
-        if len(heap2.keys) != len(keys):
-            raise SpecError('recursive spec %s: unstable heap footprint' % sf.name)
-        bt = body.term
-        z3.RecAddDefinition(f, formals + hformals, bt)
-        d = (f, keys, dict(heap1.sorts))
+        sorts = dict(heap1.sorts)
+        f = ops.uf('spec_%s_%s' % (sf.pkg.rsplit('/', 1)[-1], sf.name),
+                   *([x.sort() for x in formals] + [z3.ArraySort(I, sort_of(sorts[key])) for key in keys] + [rsort]))
+        d = (f, keys, sorts)
         self.defs[k] = d
         return d
